@@ -29,24 +29,22 @@ TRUSTED = ["networkx Graph/DiGraph views taken at face value",
            "the validity of the implementation's returned DAG is decided by the extracted Coq checker consistent_extb / meqb "
            "(bin/c05 modes 2,3) called from the worker"]
 ASSUMPTIONS = ["input is a pywhy_graphs.CPDAG object (directed + undirected layers), at most one edge per pair, int labels"]
-TECHNIQUE = ("Coq proof (soundness, completeness, termination of the Dor-Tarsi model and the round-trip equivalence: unbounded; "
-             "witness checkers reflected; refutation of the formerly coded clique test; pdag_to_cpdag fixpoint by kernel computation "
-             "n<=5) + extracted-model correspondence")
-LEVEL_TEXT = ("Unbounded theorems about the model with Dor-Tarsi's neighbourhood test, for every PDAG with at most one edge per pair "
-              "(directed layer not assumed acyclic): pdag_sound (a returned graph is a DAG on the same nodes, same skeleton, keeps every "
-              "directed edge, has exactly the PDAG's v-structures), pdag_complete (failure only if no consistent extension exists), "
-              "pdag_total (fuel = |V| never decides); roundtrip_equiv (for EVERY DAG d and topological order: pdag_to_dag(dag_to_cpdag d) "
-              "succeeds, is a consistent extension of the CPDAG and Markov equivalent to d); consistent_ext_checker_correct and "
-              "meq_checker_correct (the boolean checkers applied to the implementation's output decide the Props). "
-              "pdag_complete_code_refuted: the clique test the code had before the fix rejects the extendable PDAG "
-              "0->2,0->3,1->2,1->3,2-3. Bounded: roundtrip_bounded_5 (kernel computation, 8 shards ~6 CPU-min, every DAG of the complete "
-              "enumeration on <=5 nodes, every topological order): additionally pdag_to_cpdag(cpdag d) = cpdag d; beyond n=5 that "
-              "fixpoint clause is observed by correspondence only.")
+TECHNIQUE = ("Coq proof, all clauses unbounded (soundness, completeness, termination of the Dor-Tarsi model; both consequences via "
+             "C04's all-sizes Chickering theorem; witness checkers reflected; refutation of the formerly coded clique test) "
+             "+ extracted-model correspondence")
+LEVEL_TEXT = ("All clauses are unbounded theorems about the model with Dor-Tarsi's neighbourhood test, for every PDAG with at most one edge "
+              "per pair (directed layer not assumed acyclic): pdag_sound (a returned graph is a DAG on the same nodes, same skeleton, keeps "
+              "every directed edge, has exactly the PDAG's v-structures), pdag_complete (failure only if no consistent extension exists), "
+              "pdag_total (fuel = |V| never decides). Consequences, for EVERY DAG d and topological order: roundtrip_equiv "
+              "(pdag_to_dag(dag_to_cpdag d) succeeds, is a consistent extension of the CPDAG and Markov equivalent to d), cpdag_fixpoint "
+              "(pdag_to_cpdag(cpdag d) = cpdag d for every topological order of the returned DAG), roundtrip_all (the same with the "
+              "model's own order some_topo, proved topological). consistent_ext_checker_correct / meq_checker_correct: the boolean "
+              "checkers applied to the implementation's output decide the Props. pdag_complete_code_refuted: the clique test the code "
+              "had before the fix rejects the extendable PDAG 0->2,0->3,1->2,1->3,2-3.")
 LEVEL_NOTE = ("acyclic is stated as existence of a topological numbering. The implementation's witness is never compared by identity, "
               "only checked for validity by the extracted, proved-correct checker; which qualifying sink is chosen is not modelled "
               "(every choice is covered by the theorems). 'ValueError' is the only exception class accepted as 'no extension'. "
-              "The fixpoint clause pdag_to_cpdag(C)=C needs Chickering's theorem for dag_to_cpdag (see C04) and is therefore bounded; "
-              "roundtrip_bounded_5 is stated for the canonical edge list of each DAG (C04's dagsF_cover: every DAG has one).")
+              "The fixpoint clause rests on C04/Essential.v (cpdag_classifies_thm), whose cone uses C08/Chordal.v.")
 BIN = "/verif/bin/c05"
 SPOT_N = 15
 
